@@ -27,6 +27,17 @@ func runC11(c *eng.Ctx) {
 	ruleCursorPublishThenCache(c)
 	c.Floor(4)
 
+	// ---- shared with C10: the scan is a reverse subscription; it must run to the oldest message on a read-only cursors
+	// partition too, and its end must arrive as ResourceExhausted (what getLatestCursorOffset takes for "not found")
+	c.Rule("R10.3", "K1")
+	ruleReadonlyStopForwardOnly(c)
+	c.Floor(2)
+	c.Rule("R10.2", "K6")
+	if fn := c.Fn("server.(*partition).newSubscribeLoop$1"); fn != nil {
+		ruleReverseEndStatus(c, fn)
+	}
+	c.Floor(1)
+
 	// ---- R11.2
 	c.Rule("R11.2", "K2")
 	if fn := c.Fn("server.(*partition).becomeLeader"); fn != nil {
